@@ -256,3 +256,32 @@ Proof.
   - symmetry. apply H2, H1. reflexivity.
   - apply H1, H2. reflexivity.
 Qed.
+
+(* ---- consecutive wildcards are one wildcard (token level: an escaped star is a literal, not a wildcard) ---- *)
+Lemma lang_star_star t s : lang (Star :: Star :: t) s <-> lang (Star :: t) s.
+Proof.
+  cbn [lang]. split.
+  - intros (a & b & -> & a' & b' & -> & H). exists (a ++ a'), b'. rewrite app_assoc. auto.
+  - intros (a & b & -> & H). exists a, b. split; [reflexivity|]. exists [], b. auto.
+Qed.
+
+Lemma lang_congr t1 u v : (forall s, lang u s <-> lang v s) -> forall s, lang (t1 ++ u) s <-> lang (t1 ++ v) s.
+Proof.
+  intros E. induction t1 as [|[c|] t1 IH]; intros s; cbn [app lang]; [apply E| |].
+  - split; intros (s' & -> & H); exists s'; (split; [reflexivity|apply IH; exact H]).
+  - split; intros (a & b & -> & H); exists a, b; (split; [reflexivity|apply IH; exact H]).
+Qed.
+
+Theorem double_star_is_star p p' t1 t2 s :
+  toks p = Some (t1 ++ Star :: Star :: t2) -> toks p' = Some (t1 ++ Star :: t2) ->
+  glob_match p s = glob_match p' s.
+Proof.
+  intros Hp Hp'. apply Bool.eq_true_iff_eq. rewrite (glob_match_correct p s _ Hp), (glob_match_correct p' s _ Hp').
+  apply lang_congr. intros x. apply lang_star_star.
+Qed.
+
+(* the empty pattern matches the empty string only; a lone wildcard matches everything *)
+Lemma star_matches_all s : glob_match [c_star] s = true.
+Proof. apply (glob_match_correct [c_star] s [Star]); [reflexivity|]. cbn [lang]. exists s, []. split; [symmetry; apply app_nil_r|reflexivity]. Qed.
+Lemma empty_matches_empty s : glob_match [] s = true <-> s = [].
+Proof. rewrite (glob_match_correct [] s []) by reflexivity. reflexivity. Qed.
